@@ -1,13 +1,13 @@
 SPECIFICATION Spec
 CONSTANTS
   Threads = {1, 2}
-  K = 1
+  K = 2
   R = 3
   NObj = 4
   NCell = 1
   MaxOps = 2
-  StopAtEmpty = FALSE
-  ScanBug = TRUE
+  StopAtEmpty = TRUE
+  ScanBug = FALSE
 INVARIANT ExactlyOnce
 INVARIANT FinalOK
 INVARIANT AllRetiredDisposed
